@@ -251,6 +251,11 @@ class Interp:
             self.adopt(oid, "[*]", value)
             if key is not None:
                 o.keys = join(o.keys, key)
+                if key.has_const and len(base.refs) == 1 and not base.locs:
+                    try:
+                        o.mustkeys[key.const] = value
+                    except TypeError:
+                        pass
             if o.dictkeys is not None:
                 if key is not None and key.has_const:
                     o.dictkeys[key.const] = value
@@ -348,6 +353,7 @@ class Interp:
                 elems.append(Val(locs=[(oid, ("[*]",))]))
             if s.keys is not None:
                 keys.append(s.keys)
+            o.mustkeys = dict(s.mustkeys) if len(v.refs) == 1 and not v.locs else {}
             if s.cls is not None and s.cls not in CONTAINER_CLS and not s.cls.startswith("ext:"):
                 # copy.copy of a program object: fields alias
                 for f, fv in s.fields.items():
